@@ -161,6 +161,14 @@ def run_shard(spec, R):
         fscale = max(float(np.max(np.abs(f_flat))), 1e-300)
         mb_tol = 1e-9 if backend == "direct" else 1e-6
 
+        def seeded(call):
+            """Runs of one case are compared with each other (faulted against clean, front end against solver object):
+            pyamg's multilevel set-up draws from numpy's global generator (recorded finding of C16), so every run with
+            an iterative back-end starts from the same ambient generator state - the workload's, not the library's."""
+            if backend in ("amg", "cg"):
+                np.random.seed(20260000 + c["id"])
+            return call()
+
         ml_key = "C04:flux_reduced_iterative_backend_diverges_multilevel" if (formulation == "flux_reduced" and backend in ("amg", "cg") and M.num_cells + 1 > 100) else None
 
         def build(fail_at=None, deep=False):
@@ -259,7 +267,7 @@ def run_shard(spec, R):
         if not ok:
             continue
         w1, cap, opt = built
-        ok, out = R.guarded("solve", lambda: w1(m1, m2), key=lambda e, w: "C05:bregman_identical_or_zero_flux_raises" if False else None)
+        ok, out = R.guarded("solve", lambda: seeded(lambda: w1(m1, m2)), key=lambda e, w: "C05:bregman_identical_or_zero_flux_raises" if False else None)
         if not ok:
             continue
         dist, sol, info = cap.solve_result
@@ -285,7 +293,7 @@ def run_shard(spec, R):
             a2, b2 = wass.mass_pair(rng, shape, c["mass"])
             m1b, m2b = wass.images(darsia, a2, b2, h)
             cap2 = wass.Capture(w1)
-            ok, out2 = R.guarded("solve_second_pair", lambda: w1(m1b, m2b), key=lambda e, w: ml_key)
+            ok, out2 = R.guarded("solve_second_pair", lambda: seeded(lambda: w1(m1b, m2b)), key=lambda e, w: ml_key)
             if ok and not cap2.swallowed:
                 d2, sol2, _i2 = cap2.solve_result
                 f2 = M.flat(b2 - a2) * M.volume
@@ -316,7 +324,7 @@ def run_shard(spec, R):
             opt2["return_info"] = False
             opt2["return_status"] = True
             w2 = wass.solver_class(darsia, c["method"])(darsia.generate_grid(m1), weight_img, opt2)
-            ok, rs = R.guarded("solve_status", lambda: w2(m1, m2))
+            ok, rs = R.guarded("solve_status", lambda: seeded(lambda: w2(m1, m2)))
             if ok:
                 rel = 1e-7 if (backend in ("amg", "cg") and M.num_cells > 99) else 0.0  # multilevel set-up is randomised (pyamg)
                 R.check(isinstance(rs, tuple) and abs(float(rs[0]) - float(dist)) <= rel * abs(float(dist)) and (bool(rs[1]) == conv or rel > 0), "return_status_path_agrees",
@@ -330,11 +338,11 @@ def run_shard(spec, R):
             # a scalar cell weight goes along as an image on the respective domain
             wimg2 = None if cw is None else darsia.Image(np.full(shape, float(cw)), space_dim=dim, dimensions=[shape[d] * h2[d] for d in range(dim)], scalar=True)
             opt_fe = wass.make_options(darsia, c["method"], c["l1"], c["mob"], formulation, backend, c["aa"], num_iter, extra)
-            ok, fe = R.guarded("frontend_pair", lambda: (darsia.wasserstein_distance(m1, m2, fe_name, weight=weight_img, options=opt_fe),
-                                                         darsia.wasserstein_distance(m1c, m2c, fe_name, weight=wimg2, options=opt_fe)), key=lambda e, w: ml_key)
+            ok, fe = R.guarded("frontend_pair", lambda: (seeded(lambda: darsia.wasserstein_distance(m1, m2, fe_name, weight=weight_img, options=opt_fe)),
+                                                         seeded(lambda: darsia.wasserstein_distance(m1c, m2c, fe_name, weight=wimg2, options=opt_fe))), key=lambda e, w: ml_key)
             if ok:
                 w3 = wass.solver_class(darsia, c["method"])(darsia.generate_grid(m1c), wimg2, wass.make_options(darsia, c["method"], c["l1"], c["mob"], formulation, backend, c["aa"], num_iter, extra))
-                ok, be = R.guarded("frontend_pair", lambda: w3(m1c, m2c), key=lambda e, w: ml_key)
+                ok, be = R.guarded("frontend_pair", lambda: seeded(lambda: w3(m1c, m2c)), key=lambda e, w: ml_key)
             if ok:
                 rel = 1e-7 if (backend in ("amg", "cg") and M.num_cells > 99) else 1e-12
                 d_fe1, d_fe2, d_be2 = float(fe[0][0]), float(fe[1][0]), float(be[0])
@@ -360,7 +368,7 @@ def run_shard(spec, R):
             if not ok:
                 continue
             wf, capf, _ = built
-            ok, outf = R.guarded("solve_under_fault", lambda: wf(m1, m2))
+            ok, outf = R.guarded("solve_under_fault", lambda: seeded(lambda: wf(m1, m2)))
             if not ok:
                 continue
             raised = [x for x in capf.linear_calls if x["raised"]] if deep not in ("post", "nan") else ([1] if capf.post_fired else [])
